@@ -1,52 +1,201 @@
 /-
   Helper lemmas for C17 (renaming identifier tokens). Statements used by JP/Props/C17.lean.
 -/
-import JP.TokenCfg
+import JP.Lemmas.TokenCfgAux
 namespace JP.Lemmas
 open JP JP.Query JP.TokenCfg
 
+theorem insertByLen_perm (x : Ident × Str) (l : Cfg) : (insertByLen x l).Perm (x :: l) := by
+  induction l with
+  | nil => exact List.Perm.refl _
+  | cons y ys ih =>
+    simp only [insertByLen]
+    split
+    · exact List.Perm.refl _
+    · exact (List.Perm.cons y ih).trans (List.Perm.swap x y ys)
+
 theorem sortLongestFirst_perm (cfg : Cfg) : (sortLongestFirst cfg).Perm cfg := by
-  sorry
+  induction cfg with
+  | nil => exact List.Perm.refl _
+  | cons x xs ih =>
+    simp only [sortLongestFirst]
+    exact (insertByLen_perm x _).trans (List.Perm.cons x ih)
+
+theorem insertByLen_sorted (x : Ident × Str) (l : Cfg)
+    (h : l.Pairwise (fun a b => a.2.length ≥ b.2.length)) :
+    (insertByLen x l).Pairwise (fun a b => a.2.length ≥ b.2.length) := by
+  induction l with
+  | nil => simp [insertByLen]
+  | cons y ys ih =>
+    have h' := List.pairwise_cons.1 h
+    simp only [insertByLen]
+    split
+    · rename_i hge
+      refine List.pairwise_cons.2 ⟨?_, h⟩
+      intro z hz
+      rcases List.mem_cons.1 hz with rfl | hz
+      · exact hge
+      · have := h'.1 z hz
+        omega
+    · rename_i hlt
+      refine List.pairwise_cons.2 ⟨?_, ih h'.2⟩
+      intro z hz
+      rcases List.mem_cons.1 ((insertByLen_perm x ys).mem_iff.1 hz) with rfl | hz
+      · omega
+      · exact h'.1 z hz
 
 theorem sortLongestFirst_sorted (cfg : Cfg) :
     (sortLongestFirst cfg).Pairwise (fun a b => a.2.length ≥ b.2.length) := by
-  sorry
+  induction cfg with
+  | nil => exact List.Pairwise.nil
+  | cons x xs ih =>
+    simp only [sortLongestFirst]
+    exact insertByLen_sorted x _ ih
+
+/-- the predicate the lexer tests each alternative with -/
+private def lexPred (input : Str) : Ident × Str → Bool :=
+  fun t => !t.2.isEmpty && t.2.isPrefixOf input
+
+private theorem lexWith_some {l : Cfg} {input : Str} {k : Ident} {rest : Str}
+    (h : lexWith l input = some (k, rest)) :
+    ∃ s, l.find? (lexPred input) = some (k, s) ∧ rest = input.drop s.length := by
+  unfold lexWith at h
+  split at h
+  · rename_i k' s' heq
+    simp only [Option.some.injEq, Prod.mk.injEq] at h
+    exact ⟨s', by rw [← h.1]; exact heq, h.2.symm⟩
+  · cases h
+
+private theorem lexPred_iff (input : Str) (k : Ident) (s : Str) :
+    lexPred input (k, s) = true ↔ s ≠ [] ∧ s.isPrefixOf input = true := by
+  simp [lexPred]
+
+private theorem lexWith_of_find {l : Cfg} {input : Str} {k : Ident} {s : Str}
+    (h : l.find? (lexPred input) = some (k, s)) :
+    lexWith l input = some (k, input.drop s.length) := by
+  unfold lexWith
+  have h' : l.find? (fun t => !t.2.isEmpty && t.2.isPrefixOf input) = some (k, s) := h
+  rw [h']
+
+private theorem prefix_split {s input : Str} (hp : s.isPrefixOf input = true) :
+    input = s ++ input.drop s.length := by
+  obtain ⟨t, ht⟩ := List.isPrefixOf_iff_prefix.1 hp
+  subst ht
+  rw [List.drop_left]
 
 theorem lexEnv_sound (cfg : Cfg) (input : Str) (k : Ident) (rest : Str)
     (h : lexEnv cfg input = some (k, rest)) :
     ∃ s, (k, s) ∈ cfg ∧ s ≠ [] ∧ input = s ++ rest := by
-  sorry
+  obtain ⟨s, hf, hr⟩ := lexWith_some h
+  have hmem := (sortLongestFirst_perm cfg).mem_iff.1 (List.mem_of_find?_eq_some hf)
+  have hp := (lexPred_iff input k s).1 (List.find?_some hf)
+  refine ⟨s, hmem, hp.1, ?_⟩
+  rw [hr]
+  exact prefix_split hp.2
 
 theorem lexEnv_longest (cfg : Cfg) (input : Str) (k : Ident) (rest : Str)
     (h : lexEnv cfg input = some (k, rest)) :
     ∀ k' s', (k', s') ∈ cfg → s' ≠ [] → s'.isPrefixOf input = true → s'.length ≤ input.length - rest.length := by
-  sorry
+  intro k' s' hm' hne' hp'
+  obtain ⟨s, hf, hr⟩ := lexWith_some h
+  have hp := (lexPred_iff input k s).1 (List.find?_some hf)
+  have hlen : input.length - rest.length = s.length := by
+    have h1 := prefix_split hp.2
+    rw [← hr] at h1
+    have h2 := congrArg List.length h1
+    rw [List.length_append] at h2
+    omega
+  rw [hlen]
+  obtain ⟨_, as, bs, hl, hnot⟩ := List.find?_eq_some_iff_append.1 hf
+  have hsorted := sortLongestFirst_sorted cfg
+  have hm'' := (sortLongestFirst_perm cfg).mem_iff.2 hm'
+  rw [hl] at hsorted hm''
+  rcases List.mem_append.1 hm'' with hin | hin
+  · exfalso
+    have := hnot _ hin
+    have hq := (lexPred_iff input k' s').2 ⟨hne', hp'⟩
+    simp [hq] at this
+  · rcases List.mem_cons.1 hin with heq | hin
+    · cases heq
+      exact Nat.le_refl _
+    · have h2 := (List.pairwise_append.1 hsorted).2.1
+      exact (List.pairwise_cons.1 h2).1 _ hin
 
 theorem lexEnv_complete (cfg : Cfg) (input : Str) (k : Ident) (s : Str)
     (hm : (k, s) ∈ cfg) (hne : s ≠ []) (hp : s.isPrefixOf input = true) :
     ∃ k' rest, lexEnv cfg input = some (k', rest) := by
-  sorry
+  have hm' := (sortLongestFirst_perm cfg).mem_iff.2 hm
+  have hq := (lexPred_iff input k s).2 ⟨hne, hp⟩
+  have hsome : ((sortLongestFirst cfg).find? (lexPred input)).isSome = true :=
+    List.find?_isSome.2 ⟨_, hm', hq⟩
+  obtain ⟨⟨k', s'⟩, hf⟩ := Option.isSome_iff_exists.1 hsome
+  exact ⟨k', input.drop s'.length, lexWith_of_find hf⟩
+
+private theorem distinct_snd_unique {l : Cfg} (hd : l.Pairwise (fun a b => a.2 ≠ b.2))
+    {k k' : Ident} {s : Str} (h1 : (k, s) ∈ l) (h2 : (k', s) ∈ l) : k = k' := by
+  induction l with
+  | nil => cases h1
+  | cons y ys ih =>
+    have hd' := List.pairwise_cons.1 hd
+    rcases List.mem_cons.1 h1 with e1 | m1
+    · rcases List.mem_cons.1 h2 with e2 | m2
+      · rw [← e2] at e1
+        exact (Prod.mk.inj e1).1
+      · exact absurd (by rw [← e1]) (hd'.1 _ m2)
+    · rcases List.mem_cons.1 h2 with e2 | m2
+      · exact absurd (by rw [← e2]) (hd'.1 _ m1)
+      · exact ih hd'.2 m1 m2
 
 theorem lexEnv_exact (cfg : Cfg) (k : Ident) (s rest : Str) (hm : (k, s) ∈ cfg) (hne : s ≠ [])
     (hdistinct : cfg.Pairwise (fun a b => a.2 ≠ b.2))
     (hnolonger : ∀ k' s', (k', s') ∈ cfg → s' ≠ s → s'.isPrefixOf (s ++ rest) = true → s'.length < s.length) :
     lexEnv cfg (s ++ rest) = some (k, rest) := by
-  sorry
+  have hps : s.isPrefixOf (s ++ rest) = true :=
+    List.isPrefixOf_iff_prefix.2 (List.prefix_append s rest)
+  obtain ⟨k', rest', hres⟩ := lexEnv_complete cfg (s ++ rest) k s hm hne hps
+  obtain ⟨s', hm', hne', heq⟩ := lexEnv_sound cfg _ _ _ hres
+  have hlong := lexEnv_longest cfg _ _ _ hres k s hm hne hps
+  have hps' : s'.isPrefixOf (s ++ rest) = true := by
+    rw [heq]; exact List.isPrefixOf_iff_prefix.2 (List.prefix_append s' rest')
+  have hlen : (s ++ rest).length - rest'.length = s'.length := by
+    rw [heq, List.length_append]; omega
+  rw [hlen] at hlong
+  have hss : s' = s := by
+    by_cases hc : s' = s
+    · exact hc
+    · have := hnolonger k' s' hm' hc hps'
+      omega
+  subst hss
+  have hrr : rest = rest' := List.append_cancel_left heq
+  have hkk : k = k' := distinct_snd_unique hdistinct hm hm'
+  rw [hres, hrr, hkk]
 
 theorem lexEnv_prefix_free (cfg : Cfg) (k : Ident) (s rest : Str) (hm : (k, s) ∈ cfg) (hne : s ≠ [])
     (hfree : ∀ k' s', (k', s') ∈ cfg → s' ≠ [] → (k', s') ≠ (k, s) → ¬ s'.isPrefixOf (s ++ rest) = true) :
     lexEnv cfg (s ++ rest) = some (k, rest) := by
-  sorry
+  have hps : s.isPrefixOf (s ++ rest) = true :=
+    List.isPrefixOf_iff_prefix.2 (List.prefix_append s rest)
+  obtain ⟨k', rest', hres⟩ := lexEnv_complete cfg (s ++ rest) k s hm hne hps
+  obtain ⟨s', hm', hne', heq⟩ := lexEnv_sound cfg _ _ _ hres
+  have hps' : s'.isPrefixOf (s ++ rest) = true := by
+    rw [heq]; exact List.isPrefixOf_iff_prefix.2 (List.prefix_append s' rest')
+  have hks : (k', s') = (k, s) := by
+    by_cases hc : (k', s') = (k, s)
+    · exact hc
+    · exact absurd hps' (hfree k' s' hm' hne' hc)
+  cases hks
+  have hrr : rest = rest' := List.append_cancel_left heq
+  rw [hres, hrr]
 
 theorem shortest_first_breaks :
     ∃ (cfg : Cfg) (input : Str),
       lexEnv cfg input = some (.fakeRoot, ".a".toList) ∧
       lexWith (sortShortestFirst cfg) input = some (.root, "$.a".toList) := by
-  sorry
+  refine ⟨[(.root, "$".toList), (.fakeRoot, "$$".toList)], "$$.a".toList, ?_, ?_⟩ <;> decide
 
 theorem values_independent_of_tokens (e1 e2 : Env) (h : SameButTokens e1 e2) (segs : List Seg) (ns1 ns2 : List Node)
     (hv : ns1.map (·.val) = ns2.map (·.val)) :
-    (evalSegs e1 segs ns1).map (·.val) = (evalSegs e2 segs ns2).map (·.val) := by
-  sorry
+    (evalSegs e1 segs ns1).map (·.val) = (evalSegs e2 segs ns2).map (·.val) :=
+  TokInd.segs_main h segs ns1 ns2 hv
 
 end JP.Lemmas
